@@ -24,7 +24,7 @@ package zkaffg
 //@ func (*Proof).Verify
 //@   use bits
 //@   nopanic[C05]
-//@   modifies hstate(hash)
+//@   modifies hstate(hash), wlog(hash.h)
 //@   requires hash != nil && hash.h != nil && true && true && true && public.Xp != nil && pkok(public.Prover) && pkvals(public.Prover) && pkbig(public.Prover) && pkok(public.Verifier) && pkvals(public.Verifier) && pkbig(public.Verifier) && pedok(public.Aux) && (p != nil ==> shaped(p))
 
 //@ func challenge
